@@ -110,7 +110,9 @@ func c11HaltRace(r *Run) {
 		r.AtomicSeam, r.MutexSeam = false, false
 		defer func() { r.AtomicSeam, r.MutexSeam = atomicSeam, mutexSeam }()
 		r.Count("c11.halt.probe")
-		if !db.HasHaltLock(g.id) {
+		// (through the verif hook, not DB.HasHaltLock: that method came with a
+		// fix, and the reverse of that fix has to build against this harness)
+		if hl := db.VerifHaltLock(); hl == nil || hl.ID != g.id {
 			r.Failf("c11.halt-lost", "%s: halt lock id=%d was granted (expires in %v) and has not been released by its holder, yet the primary no longer has it", where, g.id, time.Until(g.expires))
 			return
 		}
